@@ -544,38 +544,46 @@ def strategy_update(chk, pid):
         fi_atom = canon(fld(SELF, "_fixed_income"))
         for w in ww:
             c = w.obj
-            g = G(w)
-            is_fi = sym.lit_holds(g, fi_atom, True)
-            not_fi = sym.lit_holds(g, fi_atom, False)
-            if not (is_fi or not_fi):
-                chk.ob("C01.R3", False, CORE, host, "weight-branch", "child weights are value-based for market-value strategies and notional-based for fixed-income ones",
-                       where=w.where, found=sym.fmt_guard(w.guard))
-                continue
-            if is_fi and pid not in ("C01", "C17"):
-                continue
-            if not_fi and pid not in ("C01", "C06"):
-                continue
-            base = sym.restrict(the_notl if is_fi else the_val, g)
-            numer_field = R.NOTIONAL if is_fi else R.VALUE
+            g0 = G(w)
             cc = canon(c)
             elem_lits = [l for l in plain(w.guard) if (sym.contains(l[0], lambda n: n == c) or sym.contains(canon(l[0]), lambda n: n == cc)) and not sym.contains(l[0], lambda n: n[0] == "sum")]
             skip = canon(("and", ("fld", c, "_issec", 0), ("not", ("fld", c, R.NEEDUPDATE, 0))))
             okf = truth_equiv([(canon(_strip_all_versions(l[0])), l[1]) for l in elem_lits], ("not", skip), [("fld", c, "_issec", 0), ("fld", c, R.NEEDUPDATE, 0)])
-            chk.ob("C01.R3", okf, CORE, host, "weight-loop-filter:%s" % ("fi" if is_fi else "mv"),
-                   "weights are recomputed for exactly the children whose values were recomputed (only flat, dormant securities are skipped)", where=w.where,
-                   expected="skip only when c._issec and not c.%s" % R.NEEDUPDATE, found=sym.fmt_guard(elem_lits)[:200])
-            vv = sym.restrict(w.value, g)
-            zb = ("zero", sym._abs_norm(sym.to_rat(base)))
-            if canon(vv) == canon(sym.ZERO):
-                ok = sym.lit_holds(g, zb, True)
-                chk.ob("C01.R3", ok, CORE, host, "weight-zero:%s" % ("fi" if is_fi else "mv"), "weights are zero exactly when the parent's base is zero", where=w.where,
-                       expected="under is_zero(parent base)", found=sym.fmt_guard(w.guard)[:300])
-            else:
-                num = ("fld", c, numer_field, 1)
-                ok = equal(vv, ("/", num, base)) and sym.lit_holds(g, zb, False)
-                chk.ob("C01.R3", ok, CORE, host, "weight-formula:%s" % ("fi" if is_fi else "mv"),
-                       "a child's weight is its (notional) value divided by the parent's final (notional) value", where=w.where,
-                       expected="child %s / %s (guarded against zero)" % (numer_field, short(base, 120)), found=short(vv, 240), sample={"weight": short(vv, 160)})
+            if pid in ("C01", "C06", "C17"):
+                chk.ob("C01.R3", okf, CORE, host, "weight-loop-filter", "weights are recomputed for exactly the children whose values were recomputed (only flat, dormant securities are skipped)",
+                       where=w.where, expected="skip only when c._issec and not c.%s" % R.NEEDUPDATE, found=sym.fmt_guard(elem_lits)[:200])
+            # decided per accounting mode and per zero / non-zero base, whether the code branches on them or computes flags first
+            for is_fi in (True, False):
+                if is_fi and pid not in ("C01", "C17"):
+                    continue
+                if (not is_fi) and pid not in ("C01", "C06"):
+                    continue
+                g1 = sym.sat(tuple(g0) + ((fi_atom, is_fi),))
+                if sym.inconsistent(g1):
+                    continue
+                base = sym.restrict(the_notl if is_fi else the_val, g1)
+                numer_field = R.NOTIONAL if is_fi else R.VALUE
+                zb = ("zero", sym._abs_norm(sym.to_rat(base)))
+                mode = "fi" if is_fi else "mv"
+                for zero_base in (True, False):
+                    g = sym.sat(tuple(g1) + ((zb, zero_base),))
+                    if sym.inconsistent(g):
+                        continue
+                    # conditions over phi values (e.g. a precomputed `base_is_zero` flag) are resolved against the scenario
+                    g = G(w, extra=((fi_atom, is_fi), (zb, zero_base)))
+                    if sym.inconsistent(g):
+                        continue
+                    vv = sym.restrict(w.value, g)
+                    if zero_base:
+                        ok = canon(vv) == canon(sym.ZERO)
+                        chk.ob("C01.R3", ok, CORE, host, "weight-zero:%s" % mode, "weights are zero exactly when the parent's base is zero", where=w.where,
+                               expected="0 under is_zero(parent base)", found=short(vv, 200))
+                    else:
+                        num = ("fld", c, numer_field, 1)
+                        ok = equal(vv, ("/", num, base))
+                        chk.ob("C01.R3", ok, CORE, host, "weight-formula:%s" % mode,
+                               "a child's weight is its (notional) value divided by the parent's final (notional) value", where=w.where,
+                               expected="child %s / %s (guarded against zero)" % (numer_field, short(base, 120)), found=short(vv, 240), sample={"weight": short(vv, 160)})
     # ---- rows of the strategy (C01.R4 / C03 / C07 / C08.R4)
     pairs = []
     if pid == "C01":
